@@ -58,9 +58,9 @@ CLAIMS = {
              "operation filter: the errors name exactly the operations whose reference depth exceeds the limit and nothing is raised.",
         note="Not a proof (generator pipeline over selected_fields). Reference depth function written from the property statement."),
     "C07": dict(
-        category="other", engine="pyvc+rtc",
-        technique="contract-based deductive verification of coerce_int (pyvc/z3) + run-time coercion contracts against a reference coercion on enumerated types x values",
-        text="coerce_int proved for int / bool / float / None inputs: accepts exactly the integral values of [-2^31, 2^31-1], returns them unchanged, raises only "
+        category="other", engine="pyvc+tracecheck+rtc",
+        technique="trace contracts over every path of coerce_value / _coerce_list_value / _coerce_input_object (Engine P) + contract-based deductive verification of coerce_int (pyvc/z3) + run-time coercion contracts against a reference coercion on enumerated types x values",
+        text="All paths of variable-value coercion: null rejected for non-null and accepted for nullable types before anything is parsed; scalars parsed once, enum values by name only; a non-list value becomes a one-item list, items coerced once in order; per input field: absent with default -> default under the python name, absent and required -> error, present -> coerced and stored under the python name, unknown fields rejected; only coercion errors raised (14 obligations). coerce_int proved for int / bool / float / None inputs: accepts exactly the integral values of [-2^31, 2^31-1], returns them unchanged, raises only "
              "ValueError. Bounded: coerce_value / value_from_ast / coerce_argument_values and the keyword arguments seen by resolvers agree with a "
              "reference transcription of the specification's input coercion over 9 named types x 7 wrapper shapes x value grids, on the variable "
              "and the literal route; rejected inputs never reach a resolver; per-type argument defaults on abstract-type selections.",
